@@ -101,6 +101,21 @@ func one(a int) int                { return a + 1 }
 func two(a, b int) (int, int)      { return b, a }
 func vari(a int, b ...int) int     { return a + len(b) }
 func useInt(a int)                 {}
+func vsum(xs ...int) int {
+	t := 0
+	for _, x := range xs {
+		t += x
+	}
+	return t
+}
+
+var recovered int
+
+func recoverQuiet() {
+	if recover() != nil {
+		recovered++
+	}
+}
 '''
 
 # operand pools --------------------------------------------------------------------------
@@ -228,6 +243,13 @@ def build(rng, scale=1):
             ("[T ~int | ~int8](x, y T) bool", "!(x >= y)", ["e.I0, e.I1", "int8(1), int8(2)"]),
             ("[T ~float64 | ~string](x, y T) bool", "!(x == y) || !(x <= y)", ["e.F0, e.F1", "e.S0, e.S1", "e.F0, e.F0"])]:
         g.add("bool-typeparam", "return out(%s)\n}\n\nfunc §_h%s {\n\treturn %s" % (", ".join("§_h(%s)" % c for c in calls), sig, body))
+    # a deferred literal that calls a function which calls recover(): recover only works when called
+    # directly by the deferred function
+    g.add("deferunlambda-recover", "func() {\n\t\tdefer func() { recoverQuiet() }()\n\t\tif e.I0 > -100 {\n\t\t\tpanic(\"boom\")\n\t\t}\n\t}()\n\treturn out(\"survived\")")
+    # a literal that forwards some other slice than its own variadic parameter
+    g.add("unlambda-variadic", "defaults := []int{10, 20}\n\tfn := func(xs ...int) int { return vsum(defaults...) }\n\treturn out(fn(1, 2), fn())")
+    g.add("unlambda-variadic", "fn := func(xs ...int) int { return vsum(xs...) }\n\treturn out(fn(1, 2), fn())")
+    g.add("unlambda-variadic", "fn := func(a int, xs ...int) int { return vari(a, xs...) }\n\tgn := func(a int, xs ...int) int { return vari(a, e.Xs...) }\n\treturn out(fn(1, 2), gn(1, 2, 3))")
     # ---- redundantSprint ----------------------------------------------------------------
     for c in ["fmt.Sprint(s)", 'fmt.Sprintf("%s", s)', 'fmt.Sprintf("%v", s)', "fmt.Sprint(Str{s})", 'fmt.Sprintf("%s", Str{t})', "fmt.Sprint(&PStr{s})", "fmt.Sprint(np)", 'fmt.Sprintf("%v", np)',
               "fmt.Sprint(e.Fs())", "fmt.Sprint(e.Err)", "fmt.Sprint(ns)"]:
@@ -430,6 +452,11 @@ def build12(rng, scale=1):
     # dupSubExpr: operands that are textually equal but yield a fresh value on every evaluation
     for c in ["&Rec{A: 1} == &Rec{A: 1}", "&Rec{} != &Rec{}", "(&Rec{}) == (&Rec{})", "&[2]int{} == &[2]int{}", "&struct{ a int }{1} == &struct{ a int }{1}"]:
         g.add("dupsub-fresh", "r := %s\n\treturn out(r)" % c)
+    for c in ["&[]int{1}[0] == &[]int{1}[0]", "&[]Rec{{}}[0].A == &[]Rec{{}}[0].A", "&(&Rec{}).A != &(&Rec{}).A"]:
+        g.add("dupsub-fresh", "r := %s\n\treturn out(r)" % c)
+    # caseOrder: a type listed after an interface in the *same* clause is entered all the same
+    g.add("caseorder-sameclause", "var x any = e.Any\n\tswitch x.(type) {\n\tcase fmt.Stringer, Str:\n\t\treturn \"first\"\n\tcase int:\n\t\treturn \"second\"\n\t}\n\treturn \"none\"")
+    g.add("caseorder-sameclause", "var x any = e.Any\n\tswitch x.(type) {\n\tcase error, *MyErr, fmt.Stringer, *PStr:\n\t\treturn \"first\"\n\tcase int:\n\t\treturn \"second\"\n\t}\n\treturn \"none\"")
     # dupSubExpr: both operands are the same value
     for c in ["x == x", "x != x", "x - x", "x & x", "x | x", "x < x", "x >= x", "s == s", "s != s", "e.I0 == e.I0", "e.Xs[0] == e.Xs[0]", "e.P.A - e.P.A", "gb && gb", "gb || gb", "x / x", "x % x",
               "f == f", "f != f", "f - f", "f < f", "mf == mf", "mf != mf", "mf - mf", "e.Fi() == e.Fi()", "e.Fi() - e.Fi()", "e.Ff() == e.Ff()", "(x + y) == (x + y)"]:
